@@ -139,8 +139,11 @@ func ipOf(s string) string {
 }
 
 // exec executes one op line on the instance and returns the canonical result line.
-func (w *world) exec(f []string) string {
-	ctx := context.Background()
+func (w *world) exec(f []string) string { return w.execCtx(context.Background(), f) }
+
+// execCtx executes one op line with the given request context (concurrent ops may carry a deadline or an
+// already-cancelled context, as a gRPC request whose client gave up does).
+func (w *world) execCtx(ctx context.Context, f []string) string {
 	switch f[0] {
 	case "att", "atts", "atts0", "prop", "sign", "msign":
 		if w.lockWrap != nil && len(w.cops) == 0 {
@@ -163,7 +166,13 @@ func (w *world) exec(f []string) string {
 		return "ok"
 	case "cop":
 		d, _ := strconv.Atoi(f[1])
-		w.cops = append(w.cops, cop{delayMs: d, fields: f[2:]})
+		w.cops = append(w.cops, cop{delayMs: d, ctxMs: -1, fields: f[2:]})
+		return "ok"
+	case "copd":
+		// copd <delay ms> <deadline ms> <op…>: deadline 0 = the context is already cancelled when the request starts
+		d, _ := strconv.Atoi(f[1])
+		c, _ := strconv.Atoi(f[2])
+		w.cops = append(w.cops, cop{delayMs: d, ctxMs: c, fields: f[3:]})
 		return "ok"
 	case "go":
 		workers, _ := strconv.Atoi(f[1])
